@@ -11,7 +11,7 @@ import (
 	"go/token"
 	"go/types"
 	"os"
-		"strings"
+	"strings"
 	"unsafe"
 
 	"golang.org/x/tools/go/ssa"
